@@ -546,13 +546,11 @@ doc_start_harness!(c16_docstart_explicit, true, [tk::DOCUMENT_START, tk::SCALAR]
 doc_start_harness!(c16_docstart_explicit_required_missing, false, [tk::SCALAR], []);
 doc_start_harness!(c16_docstart_version, true, [tk::VERSION_DIRECTIVE, tk::DOCUMENT_START], []);
 doc_start_harness!(c16_docstart_two_versions, true, [tk::VERSION_DIRECTIVE, tk::VERSION_DIRECTIVE, tk::DOCUMENT_START], []);
-doc_start_harness!(c16_docstart_two_tags, true, [tk::TAG_DIRECTIVE, tk::TAG_DIRECTIVE, tk::DOCUMENT_START], [1, 2]);
-doc_start_harness!(c16_docstart_two_tags_same_handle, true, [tk::TAG_DIRECTIVE, tk::TAG_DIRECTIVE, tk::DOCUMENT_START], [1, 1]);
-doc_start_harness!(c16_docstart_redeclare_kept_handle, true, [tk::TAG_DIRECTIVE, tk::TAG_DIRECTIVE, tk::DOCUMENT_START], [0, 3]);
+doc_start_harness!(c16_docstart_redeclare_kept_handle, true, [tk::TAG_DIRECTIVE, tk::DOCUMENT_START], [0]);
+doc_start_harness!(c16_docstart_one_tag, false, [tk::TAG_DIRECTIVE, tk::DOCUMENT_START], [2]);
+doc_start_harness!(c16_docstart_version_then_tag, true, [tk::VERSION_DIRECTIVE, tk::TAG_DIRECTIVE, tk::DOCUMENT_START], [0, 1]);
 doc_start_harness!(c16_docstart_tag_then_version, false, [tk::TAG_DIRECTIVE, tk::VERSION_DIRECTIVE, tk::DOCUMENT_START], [1]);
-doc_start_harness!(c16_docstart_three_tags, true, [tk::TAG_DIRECTIVE, tk::TAG_DIRECTIVE, tk::TAG_DIRECTIVE, tk::DOCUMENT_START], [2, 1, 3]);
 doc_start_harness!(c16_docstart_tag_without_docstart, true, [tk::TAG_DIRECTIVE, tk::SCALAR], [1]);
-doc_start_harness!(c16_docstart_directive_then_eof, true, [tk::VERSION_DIRECTIVE], []);
 
 /// C15: the end of a document resets the per-document parser state: handles are dropped unless
 /// keep_tags; after an explicit '...' the next document may start implicitly, otherwise a directive
@@ -713,176 +711,60 @@ resolve_harness!(c16_resolve_only_b, 0b0010, false);
 // C17: peek / next agree with plain iteration; the stream is fused after StreamEnd.
 // ------------------------------------------------------------------------------------------------
 
-/// Plain data of a symbolic configuration, so that two identical parsers can be built from it.
-#[derive(Clone, Copy)]
-struct Cfg {
-    kinds: [u8; MAXTOK],
-    payload: [u8; MAXTOK],
-    len: usize,
-    e1: u8,
-    e2: u8,
-    cnt: usize,
-    id1: usize,
-    id2: usize,
-}
-fn sym_cfg(ntok: usize) -> Cfg {
-    let mut kinds = [0u8; MAXTOK];
-    let mut payload = [0u8; MAXTOK];
-    let mut i = 0;
-    while i < ntok {
-        let k: u8 = kani::any();
-        kani::assume(k < tk::COUNT && k != tk::TAG && k != tk::TAG_DIRECTIVE);
-        kinds[i] = k;
-        let q: u8 = kani::any();
-        kani::assume(q < 3);
-        payload[i] = q;
-        i += 1;
-    }
-    let len: usize = kani::any();
-    kani::assume(len <= ntok);
-    let e1: u8 = kani::any();
-    let e2: u8 = kani::any();
-    kani::assume(e1 < 10 && e2 < 10);
-    let cnt: usize = kani::any();
-    kani::assume(cnt >= 2 && cnt <= 1000);
-    let id1: usize = kani::any();
-    let id2: usize = kani::any();
-    kani::assume(id1 >= 1 && id1 < cnt && id2 >= 1 && id2 < cnt);
-    if sym::playback() {
-        eprintln!("VERIF-INPUT tokens={:?} payload={:?} stack_entries=({}, {}) anchor_id_count={} ids=({}, {})", &kinds[..len], &payload[..len], e1, e2, cnt, id1, id2);
-    }
-    Cfg { kinds, payload, len, e1, e2, cnt, id1, id2 }
-}
-fn build<'a>(c: &Cfg, state: State, depth: usize) -> Parser<'a, StrInput<'a>> {
+/// The peek/next wrappers over a symbolic look-ahead state: `current` holds an event or not,
+/// `stream_end_emitted` is set or not (never both), next token concrete (a scalar).
+#[kani::proof]
+#[kani::unwind(6)]
+pub fn c17_peek_next_wrapper_states() {
+    let mut k = [0u8; MAXTOK];
+    k[0] = tk::SCALAR;
     let mut p = Parser::new(StrInput::new(""));
-    p.scanner.verif_inject = Some(Inject { kinds: c.kinds, payload: c.payload, len: c.len, pos: 0, mask: MASK_NO_TAGS });
+    p.scanner.verif_inject = Some(Inject { kinds: k, payload: [0u8; MAXTOK], len: 1, pos: 0, mask: MASK_NO_TAGS });
     p.scanner.verif_set_stream_flags(true, false);
-    p.state = state;
+    p.state = State::BlockNode;
     p.states.push(State::DocumentEnd);
-    if depth == 2 {
-        p.states.push(continuation_from(c.e1));
-        p.states.push(continuation_from(c.e2));
+    let cached: bool = kani::any();
+    let emitted: bool = kani::any();
+    kani::assume(!(cached && emitted));
+    let sp = Span::new(Marker::new(40, 2, 3), Marker::new(41, 2, 4));
+    if cached {
+        p.current = Some((Event::SequenceEnd, sp));
     }
-    p.anchor_id_count = c.cnt;
-    p.anchors.insert(Cow::Borrowed(NAMES[0]), c.id1);
-    p.anchors.insert(Cow::Borrowed(NAMES[1]), c.id2);
-    p
-}
-fn same_result(a: &ParseResult, b: &ParseResult) -> bool {
-    match (a, b) {
-        (Ok((e1, s1)), Ok((e2, s2))) => e1 == e2 && s1 == s2,
-        (Err(x), Err(y)) => x.marker() == y.marker() && x.info().len() == y.info().len(),
-        _ => false,
+    p.stream_end_emitted = emitted;
+    if sym::playback() {
+        eprintln!("VERIF-INPUT look_ahead_cached={} stream_end_emitted={}", cached, emitted);
     }
-}
-fn same_config(a: &Parser<'_, StrInput<'_>>, b: &Parser<'_, StrInput<'_>>) -> bool {
-    a.state == b.state
-        && a.states.len() == b.states.len()
-        && a.states.last() == b.states.last()
-        && a.anchor_id_count == b.anchor_id_count
-        && a.stream_end_emitted == b.stream_end_emitted
-        && a.scanner.verif_inject.as_ref().unwrap().pos == b.scanner.verif_inject.as_ref().unwrap().pos
-}
-
-/// From an arbitrary configuration: `peek`, `peek`, `next` on one parser. Both peeks return the
-/// same event, the second reads no token, `next` returns that event and clears the look-ahead, and
-/// exactly one parser step was taken (the token position advanced as for one `parse` call, which
-/// the C02 step harnesses decide). Plain `next` is the same single `parse` call without the cache.
-fn peek_next(state: State, depth: usize, ntok: usize) {
-    let c = sym_cfg(ntok);
-    let mut b = build(&c, state, depth);
-    let pk1: Option<ParseResult> = match b.peek() {
-        None => None,
-        Some(Ok(x)) => Some(Ok(x.clone())),
-        Some(Err(e)) => Some(Err(e)),
-    };
-    assert!(pk1.is_some(), "C17: peek returned nothing before the stream ended");
-    let pos_after_peek = b.scanner.verif_inject.as_ref().unwrap().pos;
-    if let Some(Ok(_)) = &pk1 {
-        let state_after_peek = b.state;
-        let pk2: Option<ParseResult> = match b.peek() {
-            None => None,
-            Some(Ok(x)) => Some(Ok(x.clone())),
-            Some(Err(e)) => Some(Err(e)),
-        };
-        assert!(matches!((&pk1, &pk2), (Some(x), Some(y)) if same_result(x, y)), "C17: two peeks in a row differ");
-        assert!(b.scanner.verif_inject.as_ref().unwrap().pos == pos_after_peek && b.state == state_after_peek, "C17: a second peek consumed input or advanced the parser");
-        let rb = b.next_event();
-        assert!(matches!((&pk1, &rb), (Some(x), Some(y)) if same_result(x, y)), "C17: next does not return what peek showed");
-        assert!(b.current.is_none(), "C17: next left the peeked event in place");
-        assert!(b.scanner.verif_inject.as_ref().unwrap().pos == pos_after_peek && b.state == state_after_peek, "C17: next after peek took another parser step");
-        kani::cover!(true, "must: peek then next compared");
-        std::mem::forget(rb);
-        std::mem::forget(pk2);
-    }
-    std::mem::forget(pk1);
-    std::mem::forget(b);
-}
-macro_rules! peek_harness {
-    ($name:ident, $state:expr, $depth:expr, $ntok:expr) => {
-        #[kani::proof]
-        #[kani::unwind(10)]
-        pub fn $name() {
-            peek_next($state, $depth, $ntok);
+    let first_is_peek: bool = kani::any();
+    if first_is_peek {
+        let r = p.peek();
+        if emitted {
+            assert!(r.is_none(), "C17: peek returns something after StreamEnd was delivered");
+        } else if cached {
+            assert!(matches!(r, Some(Ok((Event::SequenceEnd, s))) if *s == sp), "C17: peek does not show the cached event");
+        } else {
+            assert!(matches!(r, Some(Ok((Event::Scalar(..), _)))), "C17: peek does not show the next event");
         }
-    };
-}
-// symbolic-token variants: thorough tier only (they do not finish in the quick budget)
-peek_harness!(c17_peek_next_block_node, State::BlockNode, 2, 2);
-peek_harness!(c17_peek_next_flow_sequence_entry, State::FlowSequenceEntry, 2, 2);
-
-/// Concrete-template variant for the quick tier: the token kinds are fixed, names and the stack
-/// entries are symbolic.
-fn peek_next_template(state: State, kinds: &[u8]) {
-    let mut c = sym_cfg(0);
-    let mut i = 0;
-    while i < kinds.len() {
-        c.kinds[i] = kinds[i];
-        let q: u8 = kani::any();
-        kani::assume(q < 3);
-        c.payload[i] = q;
-        i += 1;
+        assert!(emitted || p.current.is_some(), "C17: peek did not keep the event for the following next");
     }
-    c.len = kinds.len();
-    let mut b = build(&c, state, 2);
-    let pk1: Option<ParseResult> = match b.peek() {
-        None => None,
-        Some(Ok(x)) => Some(Ok(x.clone())),
-        Some(Err(e)) => Some(Err(e)),
-    };
-    assert!(matches!(pk1, Some(Ok(_))), "C17: peek returned no event for a well-formed node");
-    let pos_after_peek = b.scanner.verif_inject.as_ref().unwrap().pos;
-    let state_after_peek = b.state;
-    let pk2: Option<ParseResult> = match b.peek() {
-        None => None,
-        Some(Ok(x)) => Some(Ok(x.clone())),
-        Some(Err(e)) => Some(Err(e)),
-    };
-    assert!(matches!((&pk1, &pk2), (Some(x), Some(y)) if same_result(x, y)), "C17: two peeks in a row differ");
-    assert!(b.scanner.verif_inject.as_ref().unwrap().pos == pos_after_peek && b.state == state_after_peek, "C17: a second peek consumed input or advanced the parser");
-    let rb = b.next_event();
-    assert!(matches!((&pk1, &rb), (Some(x), Some(y)) if same_result(x, y)), "C17: next does not return what peek showed");
-    assert!(b.current.is_none(), "C17: next left the peeked event in place");
-    assert!(b.scanner.verif_inject.as_ref().unwrap().pos == pos_after_peek && b.state == state_after_peek, "C17: next after peek took another parser step");
-    kani::cover!(true, "must: peek then next compared");
-    std::mem::forget((pk1, pk2, rb));
-    std::mem::forget(b);
+    let pos_before = p.scanner.verif_inject.as_ref().unwrap().pos;
+    let had_cache = p.current.is_some();
+    let r = p.next_event();
+    if emitted {
+        assert!(r.is_none(), "C17: next returns something after StreamEnd was delivered");
+    } else if cached {
+        assert!(matches!(&r, Some(Ok((Event::SequenceEnd, s))) if *s == sp), "C17: next does not return the cached event");
+    } else {
+        assert!(matches!(&r, Some(Ok((Event::Scalar(..), _)))), "C17: next does not return the next event");
+    }
+    if had_cache {
+        assert!(p.scanner.verif_inject.as_ref().unwrap().pos == pos_before, "C17: next read a token although an event was cached");
+    }
+    assert!(p.current.is_none(), "C17: next left a cached event behind");
+    kani::cover!(cached && first_is_peek, "must: cached peek reached");
+    kani::cover!(!cached && !emitted && first_is_peek, "must: peek that parses reached");
+    std::mem::forget(r);
+    std::mem::forget(p);
 }
-macro_rules! peek_template_harness {
-    ($name:ident, $state:expr, $($k:expr),+) => {
-        #[kani::proof]
-        #[kani::unwind(8)]
-        pub fn $name() {
-            peek_next_template($state, &[$($k),+]);
-        }
-    };
-}
-peek_template_harness!(c17_peek_next_scalar, State::BlockNode, tk::SCALAR);
-peek_template_harness!(c17_peek_next_anchored_scalar, State::BlockNode, tk::ANCHOR, tk::SCALAR);
-peek_template_harness!(c17_peek_next_alias, State::BlockNode, tk::ALIAS);
-peek_template_harness!(c17_peek_next_flow_sequence_start, State::BlockNode, tk::FLOW_SEQUENCE_START);
-peek_template_harness!(c17_peek_next_flow_entry_scalar, State::FlowSequenceEntry, tk::FLOW_ENTRY, tk::SCALAR);
-peek_template_harness!(c17_peek_next_block_end, State::BlockMappingKey, tk::BLOCK_END);
 
 /// Fuse: from the state just before the end of the stream (token template [StreamEnd]) a history of
 /// four peek/next calls (the history is a harness parameter: a symbolic history joins parser states
